@@ -543,6 +543,12 @@ def c39_safety(v, h, op, res, k, prev):
             if o is not None and o.state in ('Creating', 'Running') and j.state != o.state and 'attempt' in op and op.get('attempt') not in (None, o.attempt) \
                     and op.get('job') == j.j and op.get('batch') == j.b:
                 h.report('C39', f'C39:stale-attempt-moved-job:{op["op"]}', k, {'before': list(o), 'after': list(j), 'attempt': op.get('attempt')})
+            # losing an instance resets only the jobs whose CURRENT attempt lives on it
+            if o is not None and o.state in ('Creating', 'Running') and j.state != o.state and op['op'] in ('deactivate_instance', 'mark_instance_deleted'):
+                cur = prev.attempts.get((o.b, o.j, o.attempt))
+                if cur is not None and cur[3] != op.get('name'):
+                    h.report('C39', f'C39:job-reset-by-loss-of-an-instance-it-is-not-running-on:{op["op"]}', k,
+                             {'before': list(o), 'after': list(j), 'current_attempt_instance': cur[3], 'lost_instance': op.get('name')})
     if op['op'] in ('schedule_job', 'mark_creating', 'mark_started') and res.get('err') == 'SqlError:1242':
         pv = prev or v
         j = pv.jobs.get((op.get('batch'), op.get('job')))
